@@ -1410,10 +1410,27 @@ def _partial(B, I, f, *a, **k):
 
 
 def _islice(B, I, it, *a):
-    items = I.iterate(it)
     if not all(isinstance(x, int) or x is None for x in a):
         raise Unknown("islice bounds")
-    return IterV(items[slice(*a)])
+    sl = slice(*a)
+    if isinstance(it, (IterV, GenV)) and sl.stop is not None:
+        # an iterator is consumed only as far as the slice reaches: a second islice() over the same iterator continues from there
+        start, stop, step = sl.start or 0, sl.stop, sl.step or 1
+        out, idx, nxt = [], 0, start
+        while idx < stop:
+            try:
+                x = B.f_next(I, it)
+            except Raised as r:
+                if r.exc.cls.name == "StopIteration":
+                    break
+                raise
+            if idx == nxt:
+                out.append(x)
+                nxt += step
+            idx += 1
+        return IterV(out)
+    items = I.iterate(it)
+    return IterV(items[sl])
 
 
 def _attrgetter(B, I, name, *more):
